@@ -145,7 +145,7 @@ def mutated1(i: I8, s: S4, b: B32, strict: bool) -> bool:
 
 
 @hx.harness(props=['C06'], targets=_T, items=lambda: split(SPLIT1, 16), tiers=('thorough',),
-            bound='as mutated1 with up to two structural mutations', outside=OUTSIDE, budget=(150, 1500), glue=['pin_real_floats'])
+            bound='as mutated1 with up to two structural mutations', outside=OUTSIDE, budget=(150, 600), glue=['pin_real_floats'])
 def mutated2(i: I8, s: S4, b: B32, strict: bool) -> bool:
     """
     pre: all(len(x) <= NS for x in s)
@@ -161,7 +161,7 @@ def mutated2(i: I8, s: S4, b: B32, strict: bool) -> bool:
 
 
 @hx.harness(props=['C06'], targets=_T, items=lambda: split(SPLIT1, 16), tiers=('thorough',),
-            bound='as mutated1 with all leaves symbolic (' + _LEAVES + ')', outside=OUTSIDE, budget=(150, 1500), glue=['pin_real_floats'])
+            bound='as mutated1 with all leaves symbolic (' + _LEAVES + ')', outside=OUTSIDE, budget=(150, 600), glue=['pin_real_floats'])
 def mutated1s(i: I8, s: S4, b: B32, strict: bool) -> bool:
     """
     pre: all(len(x) <= NS for x in s)
